@@ -4,6 +4,7 @@ import (
 	"bytes"
 	"encoding/json"
 	"fmt"
+	"github.com/ethereum/go-ethereum/crypto"
 	"testing"
 
 	avm "github.com/artela-network/artela-evm/vm"
@@ -167,6 +168,8 @@ func genTreeOrProg(t *rapid.T, nFaultsMax int) *Scenario {
 	default:
 		if chance(t, 35, "depthfam") {
 			sc = depthScenario(t)
+		} else if chance(t, 40, "collisionfam") {
+			sc = collisionScenario(t)
 		} else {
 			sc = GenTreeScenario(t, TreeCfg{MaxInvs: 2, AllKinds: true, EmptyData: 20, ValuePct: 40, LowGasPct: 20})
 		}
@@ -207,6 +210,82 @@ func depthScenario(t *rapid.T) *Scenario {
 	sc := &Scenario{Fork: fork, Note: "depth"}
 	sc.Accounts = []Account{{Addr: self, Nonce: 1, Code: a.Bytes(), Balance: hexU64(100000)}, {Addr: EOAAddr, Balance: hexU64(1 << 50), Nonce: 1}}
 	sc.Invs = []Invocation{{Kind: "call", Origin: EOAAddr, Caller: EOAAddr, To: self, Gas: 300_000_000, JP: rapid.Bool().Draw(t, "depthjp")}}
+	return sc
+}
+
+// collisionScenario: a creation refused for ADDRESS COLLISION (the same CREATE2
+// twice; a CREATE whose target already has a nonce / code), in the entry contract
+// or one call below it, followed by more calls, creations and journal records of
+// the frame that issued it.
+func collisionScenario(t *rapid.T) *Scenario {
+	fork := ForkNames[uniform(t, 5, 12, "colfork")]
+	A, B, C := ContractAddrs[0], ContractAddrs[1], ContractAddrs[2]
+	initc := InitCodeReturning([]byte{0x60, 0x01, 0x60, 0x07, SSTORE, STOP})
+	if chance(t, 30, "colinit") {
+		initc = InitCodeReturning(nil) // empty code: the nonce alone makes the second one collide
+	}
+	create2 := rapid.Bool().Draw(t, "col2")
+	body := func(a *Asm) {
+		a.MstoreBytes(0, initc)
+		emit := func() {
+			if create2 {
+				a.Push(5).Push(len(initc)).Push(0).Push(uint64(uniform(t, 0, 1, "colv"))).Op(CREATE2)
+			} else {
+				a.Push(len(initc)).Push(0).Push(uint64(uniform(t, 0, 1, "colv"))).Op(CREATE)
+			}
+			a.Push(uint64(0x20 + uniform(t, 0, 3, "colslot"))).Op(SSTORE)
+		}
+		emit()
+		if create2 {
+			emit() // same salt, same init code: refused
+		}
+		// afterwards: calls, a creation that is fine, a journal record
+		n := uniform(t, 1, 3, "colafter")
+		for i := 0; i < n; i++ {
+			switch uniform(t, 0, 2, "colwhat") {
+			case 0:
+				a.Push(0).Push(0).Push(0).Push(0).Push(uint64(uniform(t, 0, 1, "colcv"))).Push(C[:]).Push(50000).Op(CALL, POP)
+			case 1:
+				a.Push(len(initc)).Push(0).Push(0).Op(CREATE, POP)
+			default:
+				c := &codeGen{a: a}
+				k := jTopValue[0]
+				c.registerKey(k)
+				c.journalChange(k)
+				a.MstoreBytes(0, initc)
+			}
+		}
+		a.Op(STOP)
+	}
+	sc := &Scenario{Fork: fork, Note: "collision"}
+	nested := rapid.Bool().Draw(t, "colnested")
+	creator := A
+	if nested {
+		creator = B
+	}
+	ca := NewAsm()
+	body(ca)
+	sc.Accounts = []Account{{Addr: creator, Nonce: 1, Code: ca.Bytes(), Balance: hexU64(1000)},
+		{Addr: C, Nonce: 1, Code: []byte{0x60, 0x01, 0x60, 0x01, SSTORE, STOP}}, {Addr: EOAAddr, Balance: hexU64(1 << 50), Nonce: 1}}
+	if nested {
+		pa := NewAsm()
+		pa.Push(0).Push(0).Push(0).Push(0).Push(0).Push(B[:]).Push(900000).Op(CALL).Push(1).Op(SSTORE)
+		pa.Push(0).Push(0).Push(0).Push(0).Push(0).Push(C[:]).Push(50000).Op(CALL).Push(2).Op(SSTORE, STOP)
+		sc.Accounts = append(sc.Accounts, Account{Addr: A, Nonce: 1, Code: pa.Bytes(), Balance: hexU64(1000)})
+	}
+	if !create2 {
+		// the address the first CREATE of the creator would get is already taken
+		taken := crypto.CreateAddress(creator, 1)
+		acc := Account{Addr: taken, Nonce: 1}
+		if rapid.Bool().Draw(t, "coltakencode") {
+			acc = Account{Addr: taken, Code: []byte{STOP}}
+		}
+		sc.Accounts = append(sc.Accounts, acc)
+	}
+	ninv := uniform(t, 1, 2, "colinv")
+	for i := 0; i < ninv; i++ {
+		sc.Invs = append(sc.Invs, Invocation{Kind: "call", Origin: EOAAddr, Caller: EOAAddr, To: A, Gas: 2_000_000, JP: rapid.Bool().Draw(t, "coljp")})
+	}
 	return sc
 }
 
@@ -297,8 +376,9 @@ func checkC08(sc *Scenario, st *Stats) *Violation {
 		return nil
 	}
 	if r.shapeErr != "" {
-		st.Exclude("shape(C07)")
-		return nil
+		// the links are C07's business; the recorded fields are compared node by node
+		// in creation order all the same (attempt i is node i whatever its links say)
+		st.Label("shape-broken(C07)")
 	}
 	ct := r.art.EVM.Tracer().CallTree()
 	overwritten := false
